@@ -183,7 +183,9 @@ theorem exit_obj_probe_agrees : ∀ row ∈ exitObjProbe, exitObjCode row.1 row.
   decide
 
 /-- 0 on success, the failing command's status on an unexpected exit, the code of an explicit `Exit`,
-    1 for a parse error -/
+    1 for a parse error.  The exit-status map does not look at the captured output: the theorem quantifies over
+    results with ANY captured text (`Res.payload` is arbitrary), which the harness family "output text as a dimension"
+    ties to the code (whatever the failing command printed, hidden or not). -/
 theorem program_exit_code :
     programExit exitCodeMap .success = some 0 ∧
     (∀ e, programExit exitCodeMap (.unexpectedExit e) = some e) ∧
